@@ -354,7 +354,7 @@ where
             if b2 <= T::zero() {
                 Interval(a2 * b1, a1 * b1)
             } else if b1 < T::zero() {
-                Interval((a1 * b2).simd_min(b2 * b1), (a1 * b1).simd_max(a2 * b2))
+                Interval((a1 * b2).simd_min(a2 * b1), (a1 * b1).simd_max(a2 * b2))
             } else {
                 Interval(a1 * b2, a2 * b2)
             }
